@@ -1,9 +1,10 @@
 (* C04 — Stopping asynchronous logging drains every accepted message and terminates.
    Property theorems only; each is closed by [exact] of a lemma of ShutdownProofs.v.  They are about
-   the model of ShutdownDefs.v (step / run / accept_shutdown / prop_c04_b / stuck_b), which is the
-   one extracted to build/m_shutdown and run against recordings of the real library.  The model was
-   written for [modelled_skeleton]; tools/s2c/shutdown.py re-reads the skeleton of the five
-   functions from /repo/src/qtlogger/ownthreadhandler.h on every run (SrcShutdown.v). *)
+   the model of ShutdownDefs.v (step / run / accept_shutdown / prop_c04_b / stuck_b) — any number of
+   threads inside resetOwnThread at once — which is the one extracted to build/m_shutdown and run
+   against recordings of the real library.  tools/s2c/shutdown.py re-reads the skeleton of the five
+   functions from /repo/src/qtlogger/ownthreadhandler.h on every run (SrcShutdown.v); the model's
+   one code-dependent switch (re-test of the thread after the relock) is COMPUTED from it. *)
 From Coq Require Import List Arith.
 Import ListNotations.
 Require Import QtlVerif.ShutdownDefs QtlVerif.ShutdownProofs QtlVerif.SrcShutdown.
@@ -14,75 +15,107 @@ Theorem C04_source_skeleton_is_the_modelled_one : src_skeleton = modelled_skelet
 Proof. reflexivity. Qed.
 Print Assumptions C04_source_skeleton_is_the_modelled_one.
 
-(* 1. the invariant, after ANY action list (posts, worker steps, stops, moves, application death,
-      in any order and number), with or without an application object, async on or off at start:
-      accepted = delivered ++ in-hand ++ queued; pending counts the last two; no backlog without a
-      worker; the mutex is held by the stop exactly at its test; a stop past its test has a worker,
-      a completed one has none *)
-Theorem C04_invariant : forall a w tr, Inv (run (init a w) tr).
+(* the wait loop of the source re-tests `if (!m_thread) return;` after re-locking *)
+Theorem C04_source_rechecks_thread_after_relock : rechecks_after_relock src_skeleton = true.
+Proof. reflexivity. Qed.
+Print Assumptions C04_source_rechecks_thread_after_relock.
+Definition rc_src := rechecks_after_relock src_skeleton.
+
+(* 1. the invariant, after ANY action list (posts, worker steps, stops by any of k stopper threads,
+      moves, application death, in any order and number), with or without an application object,
+      async on or off at start: accepted = delivered ++ in-hand ++ queued; pending counts the last
+      two; no backlog without a worker; mutex discipline (held exactly when one stopper is between
+      lock and unlock, at most one is; sleepers hold nothing); a stopper holding the mutex has a
+      thread; a returned stop means no worker; no stopper ever acted on a cleared thread *)
+Theorem C04_invariant : forall a w k tr, Inv (run rc_src (init a w k) tr).
 Proof. exact run_inv. Qed.
 Print Assumptions C04_invariant.
 
+Theorem C04_stops_mutually_exclusive : forall a w k tr,
+  let s := run rc_src (init a w k) tr in cc (stops s) <= 1 /\ (mtx s = true <-> In RCheck (stops s)).
+Proof. exact stops_mutually_exclusive. Qed.
+Print Assumptions C04_stops_mutually_exclusive.
+
 (* whenever no worker exists — in particular whenever a stop has completed — every message
    accepted so far has been delivered, in acceptance order *)
-Theorem C04_drained_when_stopped : forall a w tr,
-  let s := run (init a w) tr in worker s = false -> log s = accepted s.
+Theorem C04_drained_when_stopped : forall a w k tr,
+  let s := run rc_src (init a w k) tr in worker s = false -> log s = accepted s.
 Proof. exact drained_when_stopped. Qed.
 Print Assumptions C04_drained_when_stopped.
 
-Theorem C04_drained_when_reset_done : forall a w tr,
-  let s := run (init a w) tr in rpc s = RDone -> worker s = false /\ log s = accepted s.
+(* whenever the stop call of ANY stopper has returned (before async mode is switched on again) *)
+Theorem C04_drained_when_reset_done : forall a w k tr,
+  let s := run rc_src (init a w k) tr in In RDone (stops s) -> worker s = false /\ log s = accepted s.
 Proof. exact drained_when_reset_done. Qed.
 Print Assumptions C04_drained_when_reset_done.
 
 (* repeated start/stop cycles never touch a destroyed worker: without a worker no worker step is
    enabled, nothing is queued or counted for it *)
-Theorem C04_no_worker_activity_after_stop : forall a w tr,
-  let s := run (init a w) tr in worker s = false ->
-  step s ATake = None /\ step s ADone = None /\ queue s = [] /\ inflight s = None /\ pending s = 0.
+Theorem C04_no_worker_activity_after_stop : forall a w k tr,
+  let s := run rc_src (init a w k) tr in worker s = false ->
+  step rc_src s ATake = None /\ step rc_src s ADone = None /\ queue s = [] /\ inflight s = None /\ pending s = 0.
 Proof. exact no_worker_activity_after_stop. Qed.
 Print Assumptions C04_no_worker_activity_after_stop.
 
-(* the repaired wake-up: a stop that finds no thread after its sleep returns without touching
-   anything (two simultaneous stops themselves are outside this one-stop model; the check runs
-   them against the direct oracles) *)
-Theorem C04_wake_without_thread_returns : forall s s',
-  worker s = false -> step s AResetWake = Some s' ->
-  rpc s' = RDone /\ mtx s' = false /\ worker s' = false /\ queue s' = queue s /\ inflight s' = inflight s /\
-  pending s' = pending s /\ log s' = log s /\ accepted s' = accepted s /\ app s' = app s.
+(* CONCURRENT STOPS.  For every number k of stopper threads and every interleaving with producers,
+   worker, moves and application death: no stopper is ever in the error state (= has executed
+   m_thread->quit() on a cleared thread), and the quit/wait/clear step is only ever enabled while
+   a thread exists *)
+Theorem C04_concurrent_stops_safe : forall a w k tr,
+  let s := run rc_src (init a w k) tr in
+  errorb s = false /\
+  (forall i s', step rc_src s (AResetCheck i) = Some s' -> worker s = true /\ errorb s' = false).
+Proof. exact concurrent_stops_safe. Qed.
+Print Assumptions C04_concurrent_stops_safe.
+
+(* the repaired wake-up, for an arbitrary state: a stopper that finds no thread after its sleep
+   returns without taking the mutex or touching anything *)
+Theorem C04_wake_without_thread_returns : forall s i s',
+  worker s = false -> step rc_src s (AResetWake i) = Some s' ->
+  nth_error (stops s') i = Some RDone /\ mtx s' = false /\ worker s' = false /\ queue s' = queue s /\
+  inflight s' = inflight s /\ pending s' = pending s /\ log s' = log s /\ accepted s' = accepted s /\ app s' = app s.
 Proof. exact wake_without_thread_returns. Qed.
 Print Assumptions C04_wake_without_thread_returns.
 
+(* ... and why the re-test matters: with the skeleton as it was before commit a579b9f the switch
+   computes to false, and two stoppers reach the error step (both start with one message queued,
+   both go to sleep, the worker delivers, the first wakes and clears the thread, the second wakes,
+   takes the mutex and quits a cleared thread) *)
+Theorem C04_concurrent_stops_refuted_before_repair :
+  rechecks_after_relock pre_repair_skeleton = false /\
+  exists s, run_strict (rechecks_after_relock pre_repair_skeleton) (init true true 2) two_stops_schedule = Some s
+            /\ errorb s = true /\ worker s = false.
+Proof. exact concurrent_stops_refuted_before_repair. Qed.
+Print Assumptions C04_concurrent_stops_refuted_before_repair.
+
 (* 2. at all times and across any number of move/reset cycles the delivered list is a prefix of
       the accepted list: nothing twice, nothing reordered, nothing skipped *)
-Theorem C04_log_prefix : forall a w tr,
-  let s := run (init a w) tr in exists rest, accepted s = log s ++ rest.
+Theorem C04_log_prefix : forall a w k tr,
+  let s := run rc_src (init a w k) tr in exists rest, accepted s = log s ++ rest.
 Proof. exact log_prefix. Qed.
 Print Assumptions C04_log_prefix.
 
-Theorem C04_never_delivered_twice : forall a w tr,
-  let s := run (init a w) tr in NoDup (accepted s) -> NoDup (log s).
+Theorem C04_never_delivered_twice : forall a w k tr,
+  let s := run rc_src (init a w k) tr in NoDup (accepted s) -> NoDup (log s).
 Proof. exact never_twice. Qed.
 Print Assumptions C04_never_delivered_twice.
 
-(* a message logged while no worker exists (after a stop, or during one that has passed its test)
-   is delivered by the caller at once; one logged while the worker exists — e.g. during the wait
-   loop of a stop — is queued and counted, so the stop keeps waiting for it *)
+(* a message logged while no worker exists is delivered by the caller at once; one logged while the
+   worker exists — e.g. during the wait loop of a stop — is queued and counted *)
 Theorem C04_post_without_worker_is_synchronous : forall s m s',
-  worker s = false -> step s (APost m) = Some s' ->
+  worker s = false -> step rc_src s (APost m) = Some s' ->
   log s' = log s ++ [m] /\ queue s' = queue s /\ pending s' = pending s.
-Proof. exact post_without_worker_is_synchronous. Qed.
+Proof. exact (post_without_worker_is_synchronous rc_src). Qed.
 Print Assumptions C04_post_without_worker_is_synchronous.
 
 Theorem C04_post_with_worker_is_queued : forall s m s',
-  worker s = true -> step s (APost m) = Some s' ->
-  queue s' = queue s ++ [m] /\ pending s' = S (pending s) /\ log s' = log s /\ rpc s' = rpc s.
-Proof. exact post_with_worker_is_queued. Qed.
+  worker s = true -> step rc_src s (APost m) = Some s' ->
+  queue s' = queue s ++ [m] /\ pending s' = S (pending s) /\ log s' = log s /\ stops s' = stops s.
+Proof. exact (post_with_worker_is_queued rc_src). Qed.
 Print Assumptions C04_post_with_worker_is_queued.
 
-(* never dropped: after any accepted post, whatever follows, a state without worker has it in the log *)
 Theorem C04_accepted_is_never_dropped : forall s m s' tr,
-  Inv s -> step s (APost m) = Some s' -> worker (run s' tr) = false -> In m (log (run s' tr)).
+  Inv s -> step rc_src s (APost m) = Some s' -> worker (run rc_src s' tr) = false -> In m (log (run rc_src s' tr)).
 Proof. exact accepted_is_never_dropped. Qed.
 Print Assumptions C04_accepted_is_never_dropped.
 
@@ -91,109 +124,125 @@ Print Assumptions C04_accepted_is_never_dropped.
      "every stop returns within a bounded real time".
    Proved instead: the measure 2|queue|+|in hand| strictly decreases with every worker step, a
    worker step is enabled whenever it is positive, the test with measure 0 completes the stop with
-   log = accepted, the test with positive measure waits; and from any point of the wait loop the
-   explicit schedule finish_schedule (<= measure + 2 enabled steps) completes the stop with
-   everything accepted delivered.  Missing: fairness of the real scheduler, the 10 ms sleeps,
-   wait(3000)/terminate(). *)
+   log = accepted, the test with positive measure waits; and from ANY reachable state — any number
+   of stoppers anywhere in resetOwnThread — a schedule of at most mu + sm enabled steps (sm = 2 per
+   sleeping + 1 per mutex-holding stopper) brings EVERY stopper out of resetOwnThread with
+   everything accepted delivered and no error.  Missing: fairness of the real scheduler, the 10 ms
+   sleeps, wait(3000)/terminate(). *)
 Theorem C04_worker_step_decreases : forall s a s',
-  (a = ATake \/ a = ADone) -> step s a = Some s' -> mu s' < mu s.
-Proof. exact worker_step_decreases. Qed.
+  (a = ATake \/ a = ADone) -> step rc_src s a = Some s' -> mu s' < mu s.
+Proof. exact (worker_step_decreases rc_src). Qed.
 Print Assumptions C04_worker_step_decreases.
 
-Theorem C04_worker_step_enabled : forall s, Inv s -> app s = true -> worker s = true -> 0 < mu s ->
-  exists a s', (a = ATake \/ a = ADone) /\ step s a = Some s'.
+Theorem C04_worker_step_enabled : forall s, Inv s -> app s = true -> 0 < mu s ->
+  exists a s', (a = ATake \/ a = ADone) /\ step rc_src s a = Some s'.
 Proof. exact worker_step_enabled. Qed.
 Print Assumptions C04_worker_step_enabled.
 
-Theorem C04_check_finishes : forall s, Inv s -> rpc s = RCheck -> mu s = 0 ->
-  exists s', step s AResetCheck = Some s' /\ rpc s' = RDone /\ worker s' = false /\ log s' = accepted s'.
+Theorem C04_check_finishes : forall s i, Inv s -> nth_error (stops s) i = Some RCheck -> mu s = 0 ->
+  exists s', step rc_src s (AResetCheck i) = Some s' /\ nth_error (stops s') i = Some RDone /\ worker s' = false /\
+             mtx s' = false /\ log s' = accepted s'.
 Proof. exact check_finishes. Qed.
 Print Assumptions C04_check_finishes.
 
-Theorem C04_check_waits_for_backlog : forall s, Inv s -> rpc s = RCheck -> 0 < mu s ->
-  exists s', step s AResetCheck = Some s' /\ rpc s' = RSleep /\ worker s' = worker s.
+Theorem C04_check_waits_for_backlog : forall s i, Inv s -> nth_error (stops s) i = Some RCheck -> 0 < mu s ->
+  exists s', step rc_src s (AResetCheck i) = Some s' /\ nth_error (stops s') i = Some RSleep /\ worker s' = true /\ mtx s' = false.
 Proof. exact check_waits. Qed.
 Print Assumptions C04_check_waits_for_backlog.
 
-Theorem C04_reset_terminates_partial : forall s,
-  Inv s -> app s = true -> rpc s = RCheck \/ rpc s = RSleep ->
-  exists s', run_strict s (finish_schedule s) = Some s' /\ rpc s' = RDone /\ worker s' = false /\
-             log s' = accepted s /\ accepted s' = accepted s /\ length (finish_schedule s) <= mu s + 2.
-Proof. exact reset_terminates_partial. Qed.
-Print Assumptions C04_reset_terminates_partial.
+Theorem C04_all_stops_terminate_partial : forall s,
+  Inv s -> app s = true ->
+  exists tr s', run_strict rc_src s tr = Some s' /\ (forall r, In r (stops s') -> is_active r = false) /\
+                log s' = accepted s' /\ accepted s' = accepted s /\ errorb s' = false /\
+                length tr <= mu s + sm (stops s).
+Proof. exact all_stops_terminate_partial. Qed.
+Print Assumptions C04_all_stops_terminate_partial.
 
 (* 4. Full-strength statement of the property: "a stop returns in bounded time, with or without a
    live QCoreApplication, with or without an event loop ever having run".  It is FALSE of the
    faithful model (and of the code: finding F5).  Refuted by a witness: one post, the application
-   object goes away, the destructor's stop starts — no continuation whatsoever completes the stop,
-   and the message is never delivered. *)
+   object goes away, the destructor's stop starts — no continuation whatsoever lets any stop call
+   return, and the message is never delivered. *)
 Theorem C04_stop_returns_without_app_refuted :
-  exists s, (exists tr, s = run (init true true) tr) /\ rpc s = RCheck /\
-            forall tr, rpc (run s tr) <> RDone /\ log (run s tr) <> accepted (run s tr).
+  exists s, (exists tr, s = run rc_src (init true true 1) tr) /\ In RCheck (stops s) /\
+            forall tr, ~ In RDone (stops (run rc_src s tr)) /\ log (run rc_src s tr) <> accepted (run rc_src s tr).
 Proof. exact reset_hangs_without_app. Qed.
 Print Assumptions C04_stop_returns_without_app_refuted.
 
 Theorem C04_stop_returns_with_no_app_ever_refuted :
-  forall tr, rpc (run (run (init false true) [APost 0; AResetStart]) tr) <> RDone.
+  forall tr, ~ In RDone (stops (run rc_src (run rc_src (init false true 1) [APost 0; AResetStart 0]) tr)).
 Proof. exact reset_hangs_with_no_app_ever. Qed.
 Print Assumptions C04_stop_returns_with_no_app_ever_refuted.
 
-(* the general form, used by the check to compare "the child timed out" with the model: from a
-   state with a backlog, an idle worker and no application object, no stop ever completes *)
+(* the general form, used by the check to compare "the child timed out" with the model *)
 Theorem C04_stuck_forever : forall tr s, Inv s -> stuck_b s = true ->
-  stuck_b (run s tr) = true /\ worker (run s tr) = true /\ rpc (run s tr) <> RDone.
+  stuck_b (run rc_src s tr) = true /\ worker (run rc_src s tr) = true /\ ~ In RDone (stops (run rc_src s tr)).
 Proof. exact stuck_forever. Qed.
 Print Assumptions C04_stuck_forever.
 
-(* 5. the tie: a recording accepted by the extracted acceptor is a run of the model in which every
-   action was enabled, so it ends in a reachable state satisfying the invariant ... *)
-Theorem C04_acceptor_sound : forall app0 w0 evs a,
-  accept_shutdown app0 w0 evs = Accepted a ->
-  (exists tr, run_strict (init app0 w0) tr = Some (ms a) /\ ms a = run (init app0 w0) tr) /\ Inv (ms a).
+(* 5. the tie: a recording (of one or several stopper threads) accepted by the extracted acceptor is
+   a run of the model in which every action was enabled, so it ends in a reachable state
+   satisfying the invariant, without error ... *)
+Theorem C04_acceptor_sound : forall app0 w0 k evs a,
+  accept_shutdown rc_src app0 w0 k evs = Accepted a ->
+  (exists tr, run_strict rc_src (init app0 w0 k) tr = Some (ms a) /\ ms a = run rc_src (init app0 w0 k) tr)
+  /\ Inv (ms a) /\ errorb (ms a) = false.
 Proof. exact accept_sound. Qed.
 Print Assumptions C04_acceptor_sound.
 
 (* ... the deliveries the recording sink reported are a prefix of the posts the hooks reported ... *)
-Theorem C04_accepted_recording_delivers_a_prefix : forall app0 w0 evs a,
-  accept_shutdown app0 w0 evs = Accepted a -> exists rest, accepted (ms a) = obs a ++ rest.
+Theorem C04_accepted_recording_delivers_a_prefix : forall app0 w0 k evs a,
+  accept_shutdown rc_src app0 w0 k evs = Accepted a -> exists rest, accepted (ms a) = obs a ++ rest.
 Proof. exact accept_obs_prefix. Qed.
 Print Assumptions C04_accepted_recording_delivers_a_prefix.
 
 (* ... and a recording that reaches the end of static destruction has delivered everything *)
-Theorem C04_accepted_recording_is_complete_at_exit : forall app0 w0 evs a,
-  accept_shutdown app0 w0 (evs ++ [EExit]) = Accepted a -> obs a = accepted (ms a) /\ worker (ms a) = false.
-Proof. exact accept_exit_complete. Qed.
+Theorem C04_accepted_recording_is_complete_at_exit : forall app0 w0 k evs a,
+  accept_shutdown rc_src app0 w0 k (evs ++ [EExit]) = Accepted a -> obs a = accepted (ms a) /\ worker (ms a) = false.
+Proof. exact (accept_exit_complete rc_src). Qed.
 Print Assumptions C04_accepted_recording_is_complete_at_exit.
 
 (* the boolean oracle the check evaluates on the implementation's (posted, delivered, stopped) *)
-Theorem C04_oracle_holds : forall a w tr,
-  let s := run (init a w) tr in prop_c04_b (accepted s) (log s) (negb (worker s)) = true.
+Theorem C04_oracle_holds : forall a w k tr,
+  let s := run rc_src (init a w k) tr in prop_c04_b (accepted s) (log s) (negb (worker s)) = true.
 Proof. exact oracle_holds. Qed.
 Print Assumptions C04_oracle_holds.
 
 (* non-vacuity: two move/reset cycles with a post during the wait loop and a post after the stop;
    everything is delivered once, in order, and both stops complete *)
 Example C04_nonvacuous :
-  let s := run (init true false)
-    [AMove; APost 0; APost 1; ATake; AResetStart; AResetCheck; APost 2; ADone; ATake; AResetWake;
-     AResetCheck; ADone; ATake; ADone; AResetWake; AResetCheck; APost 3; AMove; APost 4; AResetStart;
-     AResetCheck; ATake; ADone; AResetWake; AResetCheck; AAppDie; AResetStart] in
-  log s = [0; 1; 2; 3; 4] /\ accepted s = [0; 1; 2; 3; 4] /\ rpc s = RDone /\ worker s = false /\ pending s = 0.
+  let s := run rc_src (init true false 1)
+    [AMove; APost 0; APost 1; ATake; AResetStart 0; AResetCheck 0; APost 2; ADone; ATake; AResetWake 0;
+     AResetCheck 0; ADone; ATake; ADone; AResetWake 0; AResetCheck 0; APost 3; AMove; APost 4; AResetStart 0;
+     AResetCheck 0; ATake; ADone; AResetWake 0; AResetCheck 0; AAppDie; AResetStart 0] in
+  log s = [0; 1; 2; 3; 4] /\ accepted s = [0; 1; 2; 3; 4] /\ stops s = [RDone] /\ worker s = false /\ pending s = 0.
 Proof. vm_compute. repeat split. Qed.
 
-(* non-vacuity of the acceptor: a recording of one asynchronous and one synchronous delivery *)
+(* non-vacuity of the concurrent case: the schedule that crashes the pre-repair code is harmless
+   now — the second stopper finds no thread and returns; both stops are done, message delivered *)
+Example C04_two_stops_nonvacuous :
+  match run_strict rc_src (init true true 2) two_stops_schedule with
+  | Some _ => False   (* its last step, the second AResetCheck 1, is no longer enabled ... *)
+  | None => let s := run rc_src (init true true 2) two_stops_schedule in
+            stops s = [RDone; RDone] /\ log s = [0] /\ worker s = false /\ errorb s = false
+  end.
+Proof. vm_compute. repeat split. Qed.
+
+(* non-vacuity of the acceptor: one asynchronous and one synchronous delivery; two stoppers, the
+   second of which wakes up to find no thread *)
 Example C04_acceptor_nonvacuous :
-  match accept_shutdown true false
-    [EMove; EPost 0; EReturned 0; ETake; EResetLocked; EResetWaiting; EDeliver 0 false; EDone;
-     EResetQuit; EStopEnd; EPost 1; EDeliver 1 true; EReturned 1; EAppGone; EExit] with
-  | Accepted a => obs a = [0; 1] /\ accepted (ms a) = [0; 1]
+  match accept_shutdown rc_src true false 2
+    [EMove; EPost 0; EReturned 0; ETake; EResetLocked 0; EResetWaiting 0; EResetLocked 1; EResetWaiting 1;
+     EDeliver 0 false; EDone; EResetQuit 0; EStopEnd 0; EStopEnd 1; EPost 1; EDeliver 1 true; EReturned 1;
+     EAppGone; EExit] with
+  | Accepted a => obs a = [0; 1] /\ accepted (ms a) = [0; 1] /\ stops (ms a) = [RDone; RDone]
   | Rejected _ _ => False
   end.
-Proof. vm_compute. split; reflexivity. Qed.
+Proof. vm_compute. repeat split. Qed.
 
 (* and it does reject: the stop quits the thread while message 0 is still queued *)
 Example C04_acceptor_rejects_early_quit :
-  match accept_shutdown true true [EPost 0; EResetLocked; EResetQuit] with
+  match accept_shutdown rc_src true true 1 [EPost 0; EResetLocked 0; EResetQuit 0] with
   | Accepted _ => False
   | Rejected k _ => k = 2
   end.
